@@ -20,7 +20,11 @@ import (
 
 // goroutineEnds returns, per goroutine of the first call's snapshot, the byte
 // offset at which its last line ends.
-func goroutineEnds(pc *printCase, lines [][]byte) []int {
+func goroutineEnds(pc *printCase, lines [][]byte) ([]int, []int) {
+	owner := make([]int, len(lines))
+	for i := range owner {
+		owner[i] = -1
+	}
 	ends := make([]int, len(lines))
 	off := 0
 	for i, l := range lines {
@@ -35,14 +39,16 @@ func goroutineEnds(pc *printCase, lines [][]byte) []int {
 			case "hdr":
 				out = append(out, ends[i])
 				cur = len(out) - 1
+				owner[i] = cur
 			case "blank":
 			default:
 				if cur >= 0 {
 					out[cur] = ends[i]
+					owner[i] = cur
 				}
 			}
 		}
-		return out
+		return out, owner
 	}
 	// race: operations in order; creation sections attach by id to the first
 	// operation with that id
@@ -56,6 +62,7 @@ func goroutineEnds(pc *printCase, lines [][]byte) []int {
 			out = append(out, ends[i])
 			ids = append(ids, l.P.ID)
 			cur = len(out) - 1
+			owner[i] = cur
 			sec = false
 		case "rgo":
 			cur = -1
@@ -66,17 +73,19 @@ func goroutineEnds(pc *printCase, lines [][]byte) []int {
 				}
 			}
 			sec = true
+			owner[i] = cur
 			if cur >= 0 && ends[i] > out[cur] {
 				out[cur] = ends[i]
 			}
 		case "func", "file":
+			owner[i] = cur
 			if cur >= 0 && ends[i] > out[cur] {
 				out[cur] = ends[i]
 			}
 		}
 	}
 	_ = sec
-	return out
+	return out, owner
 }
 
 func checkCutCase(res *Result, pc *printCase, rng *rand.Rand, idx int, stride int) int {
@@ -90,9 +99,22 @@ func checkCutCase(res *Result, pc *printCase, rng *rand.Rand, idx int, stride in
 	// a little pass-through text in front, so that the forwarded-prefix clause is exercised
 	pre := []byte("starting\npanic: boom\n\n")
 	data = append(append([]byte{}, pre...), data...)
-	gEnds := goroutineEnds(pc, lines)
+	gEnds, owner := goroutineEnds(pc, lines)
 	for i := range gEnds {
 		gEnds[i] += len(pre)
+	}
+	// start offset of every line, and the offset at which the scanner has seen the line that
+	// terminates the dump (the first line after it; for a race report its closing separator)
+	starts := make([]int, len(lines)+1)
+	starts[0] = len(pre)
+	for i, l := range lines {
+		starts[i+1] = starts[i] + len(l)
+	}
+	term := len(data) + 1
+	if pc.Mode == "race" {
+		term = starts[pc.NDump]
+	} else if pc.NDump < len(lines) {
+		term = starts[pc.NDump+1]
 	}
 	opts := &stack.Opts{}
 	full := runStream(newSource(data, nil, 0, nil, false), opts, len(lines)+4)
@@ -144,7 +166,23 @@ func checkCutCase(res *Result, pc *printCase, rng *rand.Rand, idx int, stride in
 			last := obs[len(obs)-1]
 			// the error
 			if final != nil {
-				if last.Err != errInjected {
+				// The unterminated fragment in front of the cut reaches the scanner together with the
+				// failure (a line without a newline is only handed over when the source ends), so the
+				// call that scans it holds the reader's error and must report exactly that, whatever
+				// the scanner thinks of the fragment. (A failure that arrives together with complete
+				// lines is still pending while those are scanned: an earlier return is legitimate.)
+				nl := bytes.LastIndexByte(data[:k], '\n') + 1
+				frag := data[nl:k]
+				bad := -1
+				for j := range obs {
+					if len(frag) > 0 && obs[j].ErrClass == "parse" && bytes.Equal(obs[j].Suffix, frag) && src.finalAt >= 0 && src.finalAt <= j {
+						bad = j
+						break
+					}
+				}
+				if bad >= 0 {
+					res.violation(mk(k, mode, "error", fmt.Sprintf("call %d scanned the last, unterminated fragment, which arrives together with the reader failure, but reported %v instead of that failure", bad+1, obs[bad].Err), "errInjected", fmt.Sprint(obs[bad].Err)))
+				} else if last.Err != errInjected {
 					res.violation(mk(k, mode, "error", fmt.Sprintf("the reader failure is not reported as that error: got %v", last.Err), "errInjected", fmt.Sprint(last.Err)))
 				}
 			} else if last.ErrClass != "eof" && last.ErrClass != "parse" {
@@ -158,9 +196,18 @@ func checkCutCase(res *Result, pc *printCase, rng *rand.Rand, idx int, stride in
 					break
 				}
 			}
+			// The goroutine being read at the cut may be partial: when the cut leaves an
+			// unterminated fragment and the scanner has not yet seen the line that ends the dump,
+			// the fragment is scanned as a continuation of the line group in front of it.
+			exempt := -1
+			if k > 0 && data[k-1] != '\n' && k < term {
+				for i := 0; i < pc.NDump && starts[i] < k; i++ {
+					exempt = owner[i]
+				}
+			}
 			complete := 0
 			for i, e := range gEnds {
-				if e <= k {
+				if e <= k && i != exempt {
 					complete++
 					if i >= len(gs) || !reflect.DeepEqual(gs[i], fullGs[i]) {
 						var got interface{}
@@ -212,6 +259,7 @@ func init() {
 				if err := json.Unmarshal(js, &pc); err != nil {
 					return err
 				}
+				pc.raw = string(js)
 				cases = append(cases, pc)
 			}
 			return nil
@@ -219,6 +267,7 @@ func init() {
 		if err != nil {
 			return err
 		}
+		sortByKey(len(cases), func(i int) string { return cases[i].raw }, func(i, j int) { cases[i], cases[j] = cases[j], cases[i] })
 		if len(cases) == 0 {
 			res.infra("no cases")
 			return res.write(*c.out)
